@@ -58,15 +58,15 @@ def gen_config(rng, fixed=None):
 
 PROFILES = {
     # weights: put del batch get getall snap release flush crange compact reopen scan iter layout longiter
-    'c01': dict(put=30, dele=8, batch=8, get=14, getall=5, snap=3, release=2, flush=5, crange=6, compact=2, reopen=3, scan=3, iter=2, layout=2, longiter=0),
-    'c06': dict(put=26, dele=8, batch=6, get=10, getall=8, snap=9, release=5, flush=5, crange=8, compact=2, reopen=0, scan=6, iter=2, layout=2, longiter=0),
+    'c01': dict(put=30, l0burst=3, dele=8, batch=8, get=14, getall=5, snap=3, release=2, flush=5, crange=6, compact=2, reopen=3, scan=3, iter=2, layout=2, longiter=0),
+    'c06': dict(put=26, l0burst=3, dele=8, batch=6, get=10, getall=8, snap=9, release=5, flush=5, crange=8, compact=2, reopen=0, scan=6, iter=2, layout=2, longiter=0),
     'c07': dict(put=24, dele=8, batch=6, get=4, getall=1, snap=4, release=2, flush=5, crange=6, compact=1, reopen=1, scan=6, iter=16, layout=1, longiter=10),
-    'c13': dict(put=26, dele=6, batch=6, get=4, getall=2, snap=3, release=2, flush=8, crange=10, compact=3, reopen=4, scan=2, iter=2, layout=8, longiter=8),
-    'c19': dict(put=30, dele=8, batch=8, get=8, getall=8, snap=2, release=1, flush=6, crange=8, compact=2, reopen=1, scan=5, iter=2, layout=3, longiter=0, repair=5),
+    'c13': dict(put=26, l0burst=3, dele=6, batch=6, get=4, getall=2, snap=3, release=2, flush=8, crange=10, compact=3, reopen=4, scan=2, iter=2, layout=8, longiter=8),
+    'c19': dict(put=30, l0burst=3, dele=8, batch=8, get=8, getall=8, snap=2, release=1, flush=6, crange=8, compact=2, reopen=1, scan=5, iter=2, layout=3, longiter=0, repair=5),
     # c20: the c01 mix plus the lifecycle operations (harness/k2_life.h)
     'c20': dict(put=30, dele=8, batch=8, get=14, getall=5, snap=3, release=2, flush=5, crange=6, compact=2, reopen=3, scan=3, iter=2, layout=2, longiter=0,
                 backup=5, bscan=4, copydb=2, wrongcmp=2, failopen=2, lock2=3),
-    'c14': dict(put=28, dele=8, batch=8, get=3, getall=2, snap=4, release=3, flush=8, crange=12, compact=3, reopen=4, scan=1, iter=1, layout=10, longiter=0),
+    'c14': dict(put=28, l0burst=3, dele=8, batch=8, get=3, getall=2, snap=4, release=3, flush=8, crange=12, compact=3, reopen=4, scan=1, iter=1, layout=10, longiter=0),
 }
 
 def gen_script(rng, keys, n):
@@ -171,6 +171,22 @@ def gen_history(rng, profile='c01', nops=80, cfg=None, heavy=None):
                 if rng.chance(1, 2): ops.append('layout')
         elif o == 'lock2':
             ops.append('lock2')
+        elif o == 'l0burst':
+            # several overlapping level-0 tables (each reopen/flush writes one), then a compaction whose range
+            # touches only part of them: exercises the level-0 overlap closure and boundary handling
+            if not open_iters:
+                ks = sorted(keys)
+                for _ in range(rng.range(2, 4)):
+                    lo = rng.below(len(ks)); hi = min(len(ks), lo + rng.range(2, 5))
+                    for k in ks[lo:hi]:
+                        ops.append('put %s %s' % (khex(k), value_tok(rng, big_ok=False)))
+                    if rng.chance(1, 2): ops.append('reopen'); live_snaps = []
+                    else: ops.append('flush')
+                a = rng.choice(ks); b = rng.choice(ks)
+                ops.append('layout')
+                ops.append(rng.choice(['compact %s %s', 'crange 0 %s %s']) % (khex(min(a, b)), khex(max(a, b))))
+                ops.append('layout')
+                for k in ks: ops.append('get %s -' % khex(k))
         elif o == 'scan':
             sn = str(rng.choice(live_snaps)) if live_snaps and rng.chance(1, 2) else '-'
             ops.append('%s %s' % (rng.choice(['scan', 'rscan']), sn))
